@@ -64,7 +64,8 @@ GAPS = [1, 1, 1, 2, 2, 3, 7, 100, 1000, 10 ** 6, 2 ** 31, 2 ** 32, 2 ** 40, 2 **
 
 ENUM_ATTRS = ["#[allow(dead_code)]", "#[doc = \"an enum\"]", "/// doc comment on the enum", "#[non_exhaustive]",
               "#[cfg_attr(all(), allow(unused))]", "#[deprecated]", "#[must_use]", "#[doc(hidden)]",
-              "/** block doc */", "#[cfg(all())]", "#[allow(clippy::all)]"]
+              "/** block doc */", "#[cfg(all())]", "#[allow(clippy::all)]", "#[allow(deprecated)]", "#[warn(missing_docs)]",
+              "#[allow(non_camel_case_types)]", "#[warn(unused)]", "#[allow(unreachable_patterns)]"]
 VARIANT_ATTRS = ["/// doc comment", "#[doc = \"a variant\"]", "#[allow(dead_code)]", "#[cfg(all())]",
                  "#[deprecated]", "#[cfg_attr(all(), doc = \"x\")]", "/** block */", "#[doc(hidden)]",
                  "#[cfg_attr(any(), enum_tools(rename = \"never\"))]", "#[allow(non_camel_case_types)]"]
@@ -157,7 +158,7 @@ DEFAULT_PROFILE = {
     "literals": "mixed",
     "attrs": 0.25,
     "vis": ["pub", "pub", "pub(crate)", "pub(super)", ""],
-    "orders": ["identity", "reverse", "perm", "perm", "by_name"],
+    "orders": ["identity", "reverse", "perm", "perm", "by_name", "runs_rotated"],
     "cfg_off": 0.05,
     "anchors": ["min", "max", "zero", "neg", "rand", "rand", "narrow_max", "narrow_min"],
 }
@@ -291,6 +292,14 @@ def enum_specs(draw, prof=None):
         order = list(range(n))
     elif order_kind == "reverse":
         order = list(range(n - 1, -1, -1))
+    elif order_kind == "runs_rotated":
+        # the runs declared in rotated order (a later run first), ascending inside each run: every declaration step
+        # is +1 except one jump down - e.g. [MAX-1, MAX, MIN, MIN+1]
+        starts = [0]
+        for ln in lens[:-1]:
+            starts.append(starts[-1] + ln)
+        cut = starts[draw(st.integers(0, len(starts) - 1))] if len(starts) > 1 else draw(st.integers(0, n - 1))
+        order = list(range(cut, n)) + list(range(0, cut))
     elif small:
         order = list(draw(st.permutations(list(range(n)))))
     else:
@@ -392,12 +401,15 @@ def enum_specs(draw, prof=None):
         want_dups = n > 1 and chance(draw, prof["dups"])
         names = [v.get("rename") if v.get("rename") is not None else v["ident"] for v in variants]
         if want_dups:
-            a = draw(st.integers(0, n - 1))
-            b = draw(st.integers(0, n - 2))
-            if b >= a:
-                b += 1
-            variants[a]["rename"] = names[b]
-            variants[a]["rename_raw"] = False
+            # one to three groups of variants sharing a name
+            for _ in range(draw(st.integers(1, min(3, max(1, n // 2))))):
+                a = draw(st.integers(0, n - 1))
+                b = draw(st.integers(0, n - 2))
+                if b >= a:
+                    b += 1
+                variants[a]["rename"] = names[b]
+                variants[a]["rename_raw"] = False
+                names[a] = names[b]
         else:
             seen = set()
             for j, v in enumerate(variants):
@@ -415,7 +427,7 @@ def enum_specs(draw, prof=None):
     # foreign attributes
     enum_attrs = []
     if chance(draw, prof["attrs"]):
-        enum_attrs = draw(st.lists(st.sampled_from(ENUM_ATTRS), max_size=3, unique=True))
+        enum_attrs = draw(st.lists(st.sampled_from(ENUM_ATTRS), max_size=5, unique=True))
         k = draw(st.integers(0, min(n, 4)))
         for _ in range(k):
             j = draw(st.integers(0, n - 1))
@@ -579,9 +591,12 @@ def simple_config(features, modes=None, names=None):
 # ---------------------------------------------------------------------------------------------
 # iterator histories
 
+HUGE_NTH = [255, 256, 65535, 65536, 65537, 2 ** 32, 2 ** 32 + 1, 2 ** 63, 2 ** 64 - 2, 2 ** 64 - 1]   # usize arguments far beyond any length
+
+
 def _nth_args(n):
     base = {0, 1, 2, max(0, n // 2), max(0, n - 1), n, n + 1, n + 5}
-    return sorted(base)
+    return sorted(base) + HUGE_NTH[::3]
 
 
 @st.composite
